@@ -102,7 +102,7 @@ package executor
 //@   option trusted extern=(*com.tuntun.rangers/node/src/vm.EVM).Create
 //@   # (the creation path: what it hands back never exceeds what it was given - EVM.create's gas clause, trusted here)
 //@   ensures result2 <= arg3
-//@   modifies ghost(stver), ghost(bal), ghost(supply), ghost(snapver), ghost(snapnext), ghost(snapbal), ghost(snapsupply), ghost(emitted), ghost(acct)
+//@   modifies ghost(stver), ghost(acctver), ghost(bal), ghost(supply), ghost(snapver), ghost(snapacct), ghost(snapnext), ghost(snapbal), ghost(snapsupply), ghost(emitted), ghost(acct)
 
 //@ func ext_setNonce
 //@   option trusted extern=(*com.tuntun.rangers/node/src/storage/account.AccountDB).SetNonce
